@@ -251,8 +251,11 @@ pub fn replay(cases: &str, seed: u64, out: &str) {
                 }
             })
             .collect();
-        if rule == "linear_zero_rate" {
-            vals[0] = Number::F64(1.0); // the first node of a discount-factor curve is presumed to be 1
+        if rule == "linear_zero_rate" && i % 2 == 0 {
+            // the first node of a discount-factor curve is PRESUMED to be 1: the rule never reads its value.
+            // Half of the curves honour the presumption, the other half do not (the specification's closed form
+            // ignores the first node's value in the same way).
+            vals[0] = Number::F64(1.0);
         }
         // supply order given by the permutation (1-based positions in date order)
         let nodes: Vec<(i64, Number)> = perm.iter().map(|p| (dates[*p as usize - 1], vals[*p as usize - 1].clone())).collect();
@@ -292,7 +295,7 @@ pub fn record(seed: u64, n: usize, out: &str) {
                 }
             })
             .collect();
-        if rule == "linear_zero_rate" {
+        if rule == "linear_zero_rate" && r.coin() {
             vals[0] = Number::F64(1.0);
         }
         let mut idx: Vec<usize> = (0..nn).collect();
